@@ -182,7 +182,7 @@ def compare(case, obs, exp, hang=None):
         et, ot = exp["typ"], obs.get("typ", {})
         if et != ot:
             must.append((["C19"] if len(case["bytes"]) >= 2 else ["C01"], "message type decoder: impl %s spec %s" % (json.dumps(ot), json.dumps(et))))
-    if not ep["ok"]:
+    if not ep["ok"] or "acc" not in exp:
         return must, asis
     ea, oa = exp["acc"], obs["acc"]
     for f, pid in (("class", ["C02", "C19"]), ("method", ["C02", "C19"]), ("tid", ["C02", "C19"])):
@@ -525,3 +525,130 @@ def comprehension_table(wd):
 
 
 CHECKS.update({"C02": ("model_checking", c02), "C10": ("model_checking", c10), "C17": ("model_checking", c17), "C16": ("model_checking", c16)})
+
+
+# --------------------------------------------------------------------------- C09 / C04
+def bit_flips(b):
+    for i in range(len(b) * 8):
+        m = list(b)
+        m[i // 8] ^= 1 << (7 - i % 8)
+        yield m, "bit %d" % i
+
+
+def bursts(b, rng, per_len):
+    nbits = len(b) * 8
+    for L in range(2, 33):
+        for _ in range(per_len):
+            start = rng.randrange(nbits - L + 1)
+            # a burst of length L: first and last bit flipped, anything in between
+            pat = 1 | (1 << (L - 1)) | (rng.getrandbits(L) if L > 2 else 0)
+            m = list(b)
+            for k in range(L):
+                if (pat >> k) & 1:
+                    i = start + k
+                    m[i // 8] ^= 1 << (7 - i % 8)
+            yield m, "burst len %d at bit %d" % (L, start)
+
+
+def c09(rep, tier, seed, wd):
+    rng = random.Random(seed)
+    nmsg = 14 if tier == "quick" else 150
+    gm = [g for g in gen_messages(400 if tier == "quick" else 4000, seed + 4, wd, maxattrs=3)
+          if g["gen"]["seal"] & 4 and len(g["bytes"]) <= (140 if tier == "quick" else 400)]
+    # builder-appended and externally computed fingerprints, with and without integrity attributes
+    gm.sort(key=lambda g: (g["gen"]["by_ext"], g["gen"]["seal"]))
+    pick = gm[::max(1, len(gm) // nmsg)][:nmsg]
+    base = [{"bytes": g["bytes"], "src": "fingerprinted message %d (%s, seal=%d)" % (g["id"], "external" if g["gen"]["by_ext"] else "builder", g["gen"]["seal"])} for g in gm]
+    muts = []
+    for g in pick:
+        b = g["bytes"]
+        for m, what in bit_flips(b):
+            muts.append({"bytes": m, "mode": "verdict", "src": "message %d, %s" % (g["id"], what)})
+        for m, what in bursts(b, rng, 6 if tier == "quick" else 30):
+            muts.append({"bytes": m, "mode": "verdict", "src": "message %d, %s" % (g["id"], what)})
+        for _ in range(len(b) * (2 if tier == "quick" else 8)):
+            pos = rng.randrange(len(b))
+            v = rng.randrange(256)
+            if v != b[pos]:
+                m = list(b)
+                m[pos] = v
+                muts.append({"bytes": m, "mode": "verdict", "src": "message %d, byte %d := %d" % (g["id"], pos, v)})
+    triples = run_pipeline(base + muts, wd, "c09", trace=False, chunk=6000)
+    n = 0
+    accepted_mutants = 0
+    for case, obs, exp, hang in triples:
+        must, asis = compare(case, obs, exp, hang)
+        if case.get("mode") == "verdict" and exp["parse"]["ok"]:
+            accepted_mutants += 1
+        for pids, what in must:
+            if "C09" in pids or (case.get("mode") == "verdict" and "C02" in pids):
+                rep.violation("%s: %s" % (case["src"], what), {"kind": "codec_case", "case": slim(case)})
+            else:
+                for p in pids:
+                    rep.note_foreign(p)
+    nb = sum(1 for g in gm if not g["gen"]["by_ext"])
+    if nb == 0 or len(pick) < 3:
+        raise ToolError("vacuity: no builder-fingerprinted messages generated")
+    rep.add_cov(evaluations=len(base) + len(muts), distinct_nontrivial=distinct(muts), fingerprinted_messages=len(base),
+                builder_fingerprints_checked_against_tla_crc=nb, mutated_messages=len(pick), mutants=len(muts),
+                mutants_accepted_by_both=accepted_mutants,
+                samples=[{"message": pick[0]["bytes"], "mutants": [muts[0]["src"], muts[len(muts) // 2]["src"], muts[-1]["src"]]}],
+                rule="every generated message with a FINGERPRINT (appended by the builder or computed independently) must be accepted, which in the specification means its FINGERPRINT equals CRC-32 (written in TLA+) of the preceding bytes with the length field covering it, XOR 0x5354554e; for a sample of them ALL single-bit flips, sampled bursts of 2..32 bits at random offsets and random byte substitutions are judged by the TLA+ decoder (which re-checks the CRC whenever the mutant still carries a FINGERPRINT) and the implementation must give the same accept/reject verdict; distinct = distinct mutant buffers")
+    rep.assumptions += ["CRC-32 detects all bursts <= 32 bits and all single-bit errors (mathematics, not model checking); TLC contributes the exact per-mutant verdict",
+                        "bursts and substitutions are sampled, single-bit flips are complete for the mutated messages"]
+
+
+def c04(rep, tier, seed, wd):
+    rng = random.Random(seed)
+    gm = [g for g in gen_messages(500 if tier == "quick" else 5000, seed + 5, wd, maxattrs=3) if g["gen"]["seal"] & 3]
+    base = [{"bytes": g["bytes"], "creds": g["creds"], "src": "sealed message %d (%s, seal=%d, trunc=%d)" % (
+        g["id"], "external" if g["gen"]["by_ext"] else "builder", g["gen"]["seal"], g["gen"]["trunc"])} for g in gm]
+    unsealed = [{"bytes": g["bytes"], "creds": g["creds"][:2], "src": "unsealed message %d" % g["id"]}
+                for g in gen_messages(60, seed + 6, wd, maxattrs=3) if not g["gen"]["seal"] & 3]
+    small = [g for g in gm if len(g["bytes"]) <= (130 if tier == "quick" else 300) and g["gen"]["trunc"] in (16, 20, 24, 28, 32)]
+    small.sort(key=lambda g: (g["gen"]["by_ext"], g["gen"]["seal"]))
+    nm = 10 if tier == "quick" else 100
+    pick = small[::max(1, len(small) // nm)][:nm]
+    muts = []
+    for g in pick:
+        b = g["bytes"]
+        for m, what in bit_flips(b):
+            muts.append({"bytes": m, "creds": g["creds"][:1], "src": "sealed message %d (seal=%d), %s" % (g["id"], g["gen"]["seal"], what)})
+        for _ in range(len(b) * (1 if tier == "quick" else 8)):
+            pos = rng.randrange(len(b))
+            v = rng.randrange(256)
+            if v != b[pos]:
+                m = list(b)
+                m[pos] = v
+                muts.append({"bytes": m, "creds": g["creds"][:1], "src": "sealed message %d, byte %d := %d" % (g["id"], pos, v)})
+    triples = run_pipeline(base + unsealed + muts, wd, "c04", trace=False, chunk=3000)
+    report_must(rep, "C04", triples, "case")
+    stat = {"validated_ok": 0, "failed": 0, "missing": 0, "rejected_by_parser": 0, "illegal_length": 0}
+    algs = {}
+    for case, obs, exp, hang in triples:
+        if not exp["parse"]["ok"]:
+            stat["rejected_by_parser"] += 1
+            continue
+        plan = exp["acc"]["plan"]
+        if not plan["present"]:
+            stat["missing"] += 1
+        elif not plan["lenOk"]:
+            stat["illegal_length"] += 1
+        else:
+            for k, got in enumerate((obs or {}).get("acc", {}).get("integrity", [])):
+                if got.get("ok"):
+                    stat["validated_ok"] += 1
+                    algs[got["alg"]] = algs.get(got["alg"], 0) + 1
+                else:
+                    stat["failed"] += 1
+    if stat["validated_ok"] == 0 or stat["failed"] == 0 or stat["missing"] == 0 or len(algs) < 2:
+        raise ToolError("vacuity in C04: %s %s" % (stat, algs))
+    rep.add_cov(evaluations=len(triples), distinct_nontrivial=distinct(base + muts), sealed_messages=len(base), tampered=len(muts),
+                outcomes=stat, algorithms_reported=algs,
+                samples=[{"message": pick[0]["bytes"], "creds": pick[0]["creds"][:2], "tamper": muts[3]["src"]}],
+                rule="messages sealed by the builder and, independently, by the adapter's own HMAC code (SHA-1, SHA-256 incl. truncations 16..32 and illegal lengths 12/18/36, both, with/without FINGERPRINT; short- and long-term credentials over random UTF-8 incl. empty and ':'), validated under the sealing credentials and under alternatives (other password, short-vs-long, long-term differing in user or realm); for a sample ALL single-bit flips and random byte substitutions of the whole buffer. The specification's IntegrityPlan names the attribute checked, the exact bytes authenticated (length field rewritten) and the claimed MAC; python's hmac/hashlib computes HMAC/MD5 on exactly those bytes; the implementation's verdict and reported algorithm must equal the result")
+    rep.assumptions += ["HMAC-SHA1/SHA256/MD5 of python's standard library are the independent implementation; HMAC collisions do not occur",
+                        "tamper evidence itself rests on HMAC, the check establishes that the implementation authenticates exactly the RFC's bytes with the RFC's key"]
+
+
+CHECKS.update({"C09": ("fault_enumeration", c09), "C04": ("fault_enumeration", c04)})
